@@ -7,6 +7,7 @@
 mod fam_cp;
 mod fam_aut;
 mod fam_cs;
+mod fam_lit;
 mod fam_lr;
 mod fam_re;
 mod fam_store;
@@ -38,6 +39,7 @@ fn main() {
     ));
     match family {
         "cs" => fam_cs::run(&mut t, &mut rng, thorough),
+        "lit" => fam_lit::run(&mut t, &mut rng, thorough),
         "store" => fam_store::run(&mut t, &mut rng, thorough),
         "aut" => fam_aut::run(&mut t, &mut rng, thorough),
         "lr" => fam_lr::run(&mut t, &mut rng, thorough),
